@@ -23,4 +23,4 @@ INIT MCInit
 NEXT MCNext
 CHECK_DEADLOCK FALSE
 VIEW View
-INVARIANTS C06_RollbackRestores C06_RollbackRefused
+INVARIANTS C06_RollbackRestores C06_RollbackRefused Cover
